@@ -62,7 +62,7 @@ func verifSame(id string, got, want []string) {
 func VerifHarness_C19_Variables() {
 	fset := token.NewFileSet()
 	pkg := types.NewPackage("example.org/in", "in")
-	marker := []string{"// goverter:variables", "//goverter:variables", "/* goverter:variables */"}[nondetChoice("marker.style", 3)]
+	marker := []string{"// goverter:variables", "//goverter:variables", "/* goverter:variables */", "// These are the goverter:variables of the package.", "// goverter:variables, see below"}[nondetChoice("marker.style", 5)]
 	declDoc := verifDoc("decl", marker)
 	valueDoc := verifDoc("value", "")
 	decl := &ast.GenDecl{Tok: token.VAR, Doc: declDoc, Specs: []ast.Spec{
@@ -84,7 +84,8 @@ func VerifHarness_C19_Variables() {
 func VerifHarness_C19_Interface() {
 	fset := token.NewFileSet()
 	pkg := types.NewPackage("example.org/in", "in")
-	marker := []string{"// goverter:converter", "//goverter:converter", "/* goverter:converter */"}[nondetChoice("marker.style", 3)]
+	// the marker counts wherever the comment contains it: on a line of its own, inside a sentence, before punctuation
+	marker := []string{"// goverter:converter", "//goverter:converter", "/* goverter:converter */", "// Converter is the goverter:converter for the API models.", "// See goverter:converter; more prose", "/* block prose goverter:converter. */"}[nondetChoice("marker.style", 6)]
 	declDoc := verifDoc("decl", marker)
 	methodDoc := verifDoc("method", "")
 	iface := &ast.InterfaceType{Methods: &ast.FieldList{List: []*ast.Field{
